@@ -10,7 +10,19 @@ obligation (C06_code_* / C07_code_*), not only the sampled correspondence.
 
 Fail-closed: any statement, expression, receiver or call outside the recognised shapes aborts the generation with
 `unrecognised shape`.  Dropped (no effect on the modelled state), only when their arguments are side-effect free and refer
-to bound names: <obj>.report(...), self.system.msg(...)."""
+to bound names: <obj>.report(...), self.system.msg(...).
+
+Normalisations (each keeps the meaning; anything else is rejected):
+  * `a, b = e1, e2` whose targets are fresh locals                     -> two assignments
+  * `x if c else y`                                                   -> ECond
+  * a local bound to <obj>.contents / <obj>._localNameToFullName_map / <x>.system.allobjects is a NAME for that dictionary:
+    `d[k] = v` and `del d[k]` on it are the updates of the dictionary; no other use; neither local may be rebound
+  * adjacent assignments to .name / .parent / .parentMod of one object  -> one simultaneous update
+  * a call to a function of the same module, or to a method of the same class, whose body is in the language, is inlined
+    (SBlock): parameters and locals become fresh variables; in expression position the call is hoisted in front of the
+    statement when it is the whole right-hand side / return value / condition, possibly under `not`
+  * `for x in _walk_with_members(e)` when the generator has exactly the text of the explicit-stack pre-order walk
+    (up to the names of its locals) and the loop body only touches the registry                          -> SForSubtree"""
 import ast, inspect, textwrap
 from pathlib import Path
 
@@ -45,32 +57,101 @@ def is_none(e):
     return isinstance(e, ast.Constant) and e.value is None
 
 
+WALK_TEMPLATE = (
+    "FunctionDef(args=[v0], body=[Assign(targets=[v1], value=List(elts=[v0])), While(test=v1, body=[Assign(targets=[v2], "
+    "value=Call(func=Attribute(value=v1, attr='pop'), args=[])), Expr(value=Yield(value=v2)), Expr(value=Call(func=Attribute("
+    "value=v1, attr='extend'), args=[Call(func=Name('reversed'), args=[Call(func=Name('list'), args=[Call(func=Attribute("
+    "value=Attribute(value=v2, attr='contents'), attr='values'), args=[])])])]))], orelse=[])])")
+
+
+def canon_walk(fn):
+    """a canonical text of a function: parameters and locals renamed v0, v1, ... in order of appearance; docstring,
+    annotations and comments ignored"""
+    names = {}
+
+    def nm(x):
+        if x not in names:
+            names[x] = 'v%d' % len(names)
+        return names[x]
+
+    def go(n):
+        if isinstance(n, ast.FunctionDef):
+            a = n.args
+            if a.vararg or a.kwarg or a.kwonlyargs or a.posonlyargs or a.defaults or n.decorator_list:
+                return '?'
+            return 'FunctionDef(args=[%s], body=[%s])' % (', '.join(nm(x.arg) for x in a.args), ', '.join(go(x) for x in strip_doc(n.body)))
+        if isinstance(n, ast.Assign):
+            return 'Assign(targets=[%s], value=%s)' % (', '.join(go(t) for t in n.targets), go(n.value))
+        if isinstance(n, ast.AnnAssign) and n.value is not None:
+            return 'Assign(targets=[%s], value=%s)' % (go(n.target), go(n.value))
+        if isinstance(n, ast.While):
+            return 'While(test=%s, body=[%s], orelse=[%s])' % (go(n.test), ', '.join(go(x) for x in n.body), ', '.join(go(x) for x in n.orelse))
+        if isinstance(n, ast.Expr):
+            return 'Expr(value=%s)' % go(n.value)
+        if isinstance(n, ast.Yield):
+            return 'Yield(value=%s)' % (go(n.value) if n.value is not None else 'None')
+        if isinstance(n, ast.Call) and not n.keywords:
+            return 'Call(func=%s, args=[%s])' % (go(n.func), ', '.join(go(x) for x in n.args))
+        if isinstance(n, ast.Attribute):
+            return 'Attribute(value=%s, attr=%r)' % (go(n.value), n.attr)
+        if isinstance(n, ast.List):
+            return 'List(elts=[%s])' % ', '.join(go(x) for x in n.elts)
+        if isinstance(n, ast.Name):
+            return 'Name(%r)' % n.id if n.id in ('reversed', 'list') else nm(n.id)
+        return '?'
+    return go(fn)
+
+
 class Fn:
-    def __init__(self, fn, tag, visitor):
+    def __init__(self, fn, tag, visitor, tree=None, cls=None, parent=None):
         self.fn, self.tag = fn, tag
         self.visitor = visitor           # `self` is the ModuleVistor (not an object of the model)
+        self.tree, self.cls = tree, cls  # where helpers are looked up: the module, the class of the method
+        self.parent = parent             # the context this body is inlined into
+        self.alloc = parent.alloc if parent is not None else [0]
+        self.inlining = (parent.inlining if parent is not None else []) + [fn.name]
         self.vars = {}
         self.assigned = set()
+        self.dict_alias = {}             # local -> ('contents' | 'alias', <object local>) | ('reg', None)
+        self.frozen = set()              # locals that must not be rebound
+        self.pre = []                    # hoisted statements of the statement being translated
         a = fn.args
         if a.vararg or a.kwarg or a.kwonlyargs or a.posonlyargs or a.defaults:
             bad('parameter list of %s' % fn.name, fn)
         self.params = [x.arg for x in a.args]
-        if not self.params or self.params[0] != 'self':
+        if parent is None and (not self.params or self.params[0] != 'self'):
             bad('first parameter of %s' % fn.name, fn)
-        for q in self.params[1:] if visitor else self.params:
-            self.var(q)
-            self.assigned.add(q)
+        self.depth = 0
+        if parent is None:
+            for q in self.params[1:] if visitor else self.params:
+                self.var(q)
+                self.assigned.add(q)
 
     def var(self, name):
         # variables are emitted as numerals (parameters first, in the order of the signature, then locals in the order of
         # their first binding): the proofs never mention a local by name
         if name not in self.vars:
-            self.vars[name] = len(self.vars)
+            self.vars[name] = self.alloc[0]
+            self.alloc[0] += 1
         return str(self.vars[name])
+
+    def fresh(self):
+        self.alloc[0] += 1
+        return str(self.alloc[0] - 1)
+
+    def bind(self, name, node):
+        if name in self.frozen:
+            bad('a local that names a dictionary (or the object it belongs to) is rebound', node)
+        if name in self.dict_alias:
+            del self.dict_alias[name]
+        self.assigned.add(name)
+        return self.var(name)
 
     def use(self, name, node):
         if name == 'self' and self.visitor:
             bad('the visitor itself used as a value', node)
+        if name in self.dict_alias:
+            bad('a local that names a dictionary is used as a value', node)
         if name not in self.assigned:
             bad('local %r read before it is bound' % name, node)
         return self.var(name)
@@ -81,9 +162,17 @@ class Fn:
                 and e.value.attr == 'builder' and isinstance(e.value.value, ast.Name) and e.value.value.id == 'self')
 
     def is_allobjects(self, e):
-        """self.system.allobjects"""
-        return (isinstance(e, ast.Attribute) and e.attr == 'allobjects' and isinstance(e.value, ast.Attribute)
-                and e.value.attr == 'system' and isinstance(e.value.value, ast.Name) and e.value.value.id == 'self')
+        """self.system.allobjects, <bound object local>.system.allobjects (one System), or a local that names it"""
+        if isinstance(e, ast.Name) and self.dict_alias.get(e.id) == ('reg', None):
+            return True
+        if (isinstance(e, ast.Attribute) and e.attr == 'allobjects' and isinstance(e.value, ast.Attribute)
+                and e.value.attr == 'system' and isinstance(e.value.value, ast.Name)):
+            who = e.value.value.id
+            if who == 'self':
+                return True
+            if who in self.assigned and who not in self.dict_alias:
+                return True
+        return False
 
     def is_msg(self, f):
         return (isinstance(f, ast.Attribute) and f.attr == 'msg' and isinstance(f.value, ast.Attribute) and f.value.attr == 'system'
@@ -146,6 +235,8 @@ class Fn:
                 t = 'EIn (%s) (%s)' % (self.expr(l), self.expr(r))
                 return t if isinstance(op, ast.In) else 'ENot (%s)' % t
             bad('comparison', e)
+        if isinstance(e, ast.IfExp):
+            return 'ECond (%s) (%s) (%s)' % (self.expr(e.test), self.expr(e.body), self.expr(e.orelse))
         if isinstance(e, ast.Call) and not e.keywords:
             f = e.func
             if isinstance(f, ast.Name) and f.id == 'isinstance' and len(e.args) == 2 and class_name(e.args[1]):
@@ -158,6 +249,72 @@ class Fn:
                 if f.attr == 'get' and len(e.args) == 1 and isinstance(f.value, ast.Attribute) and f.value.attr == 'contents':
                     return 'EContentsGet (%s) (%s)' % (self.expr(f.value.value), self.expr(e.args[0]))
         bad('expression', e)
+
+    # ---- helpers of the same module / class, inlined ---------------------------------------------------------------
+    PRIMITIVE_METHODS = ('reparent', '_handle_reparenting_pre', '_handle_reparenting_post', 'fullName', 'resolveName', 'report',
+                         'msg', 'get', 'values')
+
+    def helper(self, e):
+        """(FunctionDef, is_method) when e is a call of a module-level function of this module or of a method of this
+        class through `self`, that is not one of the primitives"""
+        if not (isinstance(e, ast.Call) and not e.keywords and self.tree is not None):
+            return None
+        f = e.func
+        if isinstance(f, ast.Name) and f.id not in ('isinstance', 'len', 'str', 'repr', 'list', 'reversed'):
+            fs = [n for n in self.tree.body if isinstance(n, ast.FunctionDef) and n.name == f.id]
+            if len(fs) == 1:
+                return fs[0], False
+        if isinstance(f, ast.Attribute) and isinstance(f.value, ast.Name) and f.value.id == 'self' and f.attr not in self.PRIMITIVE_METHODS \
+                and self.cls is not None:
+            fs = [n for n in self.cls.body if isinstance(n, ast.FunctionDef) and n.name == f.attr]
+            if len(fs) == 1:
+                return fs[0], True
+        return None
+
+    def inline(self, e, target):
+        """the statement  target = <helper>(args)  (target None: the value is dropped)"""
+        fn, is_method = self.helper(e)
+        if fn.name in self.inlining or len(self.inlining) > 4:
+            bad('recursive or too deeply nested helper', e)
+        if fn.decorator_list:
+            bad('decorated helper', fn)
+        for sub in ast.walk(fn):
+            if isinstance(sub, (ast.Yield, ast.YieldFrom, ast.Await, ast.Global, ast.Nonlocal, ast.FunctionDef)) and sub is not fn:
+                bad('helper %s is not a plain function' % fn.name, e)
+        child = Fn(fn, self.tag, self.visitor if is_method else False, self.tree, self.cls if is_method else None, parent=self)
+        params = child.params
+        if is_method:
+            params = params[1:]
+            if not self.visitor:
+                child.vars['self'] = self.vars['self']
+                child.assigned.add('self')
+        elif params and params[0] == 'self':
+            bad('module-level helper with a parameter called self', fn)
+        if not is_method:
+            child.params = ['self'] + params        # not used; keeps the shape
+        if len(params) != len(e.args):
+            bad('arity of helper %s' % fn.name, e)
+        pre = []
+        for q, a in zip(params, e.args):
+            if isinstance(a, ast.Starred):
+                bad('starred argument', e)
+            ae = self.expr(a)
+            pre.append('SAssign %s (%s)' % (child.var(q), ae))
+            child.assigned.add(q)
+        body = child.block(strip_doc(fn.body))
+        for o in reversed(pre):
+            body = 'SSeq (%s) (%s)' % (o, body)
+        return 'SBlock (%s) (%s)' % ('Some %s' % target if target is not None else 'None', body)
+
+    def top_expr(self, e):
+        """an expression in a position from which a helper call can be hoisted in front of the statement"""
+        if self.helper(e) is not None:
+            t = self.fresh()
+            self.pre.append(self.inline(e, t))
+            return 'EVar %s' % t
+        if isinstance(e, ast.UnaryOp) and isinstance(e.op, ast.Not) and self.helper(e.operand) is not None:
+            return 'ENot (%s)' % self.top_expr(e.operand)
+        return self.expr(e)
 
     # ---- statements ----------------------------------------------------------------------------------------------
     @staticmethod
@@ -212,7 +369,11 @@ class Fn:
                 out.append('SSetNP (EVar %s) (%s) (%s)' % (self.use(obj, node), nm, pa))
                 i = j
                 continue
+            outer = self.pre
+            self.pre = []
             o = self.stmt(s)
+            out.extend(self.pre)
+            self.pre = outer
             if o is not None:
                 out.append(o)
             i += 1
@@ -231,6 +392,9 @@ class Fn:
         d = t.value
         if self.is_allobjects(d):
             return 'reg', None, k
+        if isinstance(d, ast.Name) and d.id in self.dict_alias:
+            kind, obj = self.dict_alias[d.id]
+            return kind, ast.Name(id=obj, ctx=ast.Load(), lineno=t.lineno, col_offset=0), k
         if isinstance(d, ast.Attribute) and d.attr == 'contents':
             return 'contents', d.value, k
         if isinstance(d, ast.Attribute) and d.attr == '_localNameToFullName_map':
@@ -243,14 +407,16 @@ class Fn:
         if isinstance(s, ast.Assert):
             return 'SAssert (%s)' % self.expr(s.test)
         if isinstance(s, ast.Return):
-            return 'SReturn (%s)' % (self.expr(s.value) if s.value is not None else 'EConst VNone')
+            return 'SReturn (%s)' % (self.top_expr(s.value) if s.value is not None else 'EConst VNone')
         if isinstance(s, ast.If):
-            c = self.expr(s.test)
+            c = self.top_expr(s.test)
             before = set(self.assigned)
+            self.depth += 1
             th = self.block(s.body)
             a1 = self.assigned
             self.assigned = set(before)
             el = self.block(s.orelse)
+            self.depth -= 1
             a2 = self.assigned
             if self.always_returns(s.body):
                 self.assigned = a2
@@ -263,14 +429,31 @@ class Fn:
             it = s.iter
             if s.orelse or not isinstance(s.target, ast.Name):
                 bad('for loop', s)
+            if (isinstance(it, ast.Call) and isinstance(it.func, ast.Name) and it.func.id == '_walk_with_members' and len(it.args) == 1
+                    and not it.keywords and self.tree is not None):
+                fs = [n for n in self.tree.body if isinstance(n, ast.FunctionDef) and n.name == '_walk_with_members']
+                if len(fs) != 1 or canon_walk(fs[0]) != WALK_TEMPLATE:
+                    bad('_walk_with_members is not the explicit-stack pre-order walk of `contents`', s)
+                src = self.expr(it.args[0])
+                x = self.bind(s.target.id, s)
+                before = set(self.assigned)
+                self.depth += 1
+                body = self.block(s.body)
+                self.depth -= 1
+                self.assigned = before
+                import re as _re
+                if _re.search(r'SSetNP|SDelContents|SSetContents|SSetAlias|SReparent|SPre|SPost|SBlock|SFor|SReturn', body):
+                    bad('body of a loop over _walk_with_members does more than touch the registry', s)
+                return 'SForSubtree (%s) %s (%s)' % (src, x, body)
             if not (isinstance(it, ast.Call) and not it.args and not it.keywords and isinstance(it.func, ast.Attribute)
                     and it.func.attr == 'values' and isinstance(it.func.value, ast.Attribute) and it.func.value.attr == 'contents'):
                 bad('for loop: expected `for x in <obj>.contents.values():`', s)
             src = self.expr(it.func.value.value)
-            x = self.var(s.target.id)
+            x = self.bind(s.target.id, s)
             before = set(self.assigned)
-            self.assigned.add(s.target.id)
+            self.depth += 1
             body = self.block(s.body)
+            self.depth -= 1
             self.assigned = before
             return 'SForContents (%s) %s (%s)' % (src, x, body)
         if isinstance(s, ast.Delete):
@@ -290,11 +473,43 @@ class Fn:
             v = s.value
             if tgt is None or v is None:
                 bad('assignment', s)
+            if isinstance(tgt, ast.Tuple) and isinstance(v, ast.Tuple) and len(tgt.elts) == len(v.elts) \
+                    and all(isinstance(t, ast.Name) for t in tgt.elts):
+                names = [t.id for t in tgt.elts]
+                for sub in ast.walk(v):
+                    if isinstance(sub, ast.Name) and sub.id in names:
+                        bad('parallel assignment whose right-hand side reads a target', s)
+                if len(set(names)) != len(names):
+                    bad('parallel assignment with a repeated target', s)
+                es = [self.expr(x) for x in v.elts]
+                outs = ['SAssign %s (%s)' % (self.bind(n, s), e) for n, e in zip(names, es)]
+                r = outs[-1]
+                for o in reversed(outs[:-1]):
+                    r = 'SSeq (%s) (%s)' % (o, r)
+                return r
             if isinstance(tgt, ast.Name):
+                # a name for a dictionary
+                kind = None
+                if isinstance(v, ast.Attribute) and self.is_allobjects(v):
+                    kind = ('reg', None)
+                elif isinstance(v, ast.Attribute) and v.attr in ('contents', '_localNameToFullName_map') and isinstance(v.value, ast.Name):
+                    self.use(v.value.id, s)
+                    kind = ('contents' if v.attr == 'contents' else 'alias', v.value.id)
+                if kind is not None:
+                    if self.depth or tgt.id in self.assigned or tgt.id in self.vars:
+                        bad('a name for a dictionary bound conditionally or re-using a local', s)
+                    self.dict_alias[tgt.id] = kind
+                    self.frozen.add(tgt.id)
+                    if kind[1] is not None:
+                        self.frozen.add(kind[1])
+                    return None
+                if self.helper(v) is not None:
+                    x = self.var(tgt.id) if tgt.id not in self.frozen else self.bind(tgt.id, s)
+                    out = self.inline(v, x)
+                    self.bind(tgt.id, s)
+                    return out
                 e = self.expr(v)
-                out = 'SAssign %s (%s)' % (self.var(tgt.id), e)
-                self.assigned.add(tgt.id)
-                return out
+                return 'SAssign %s (%s)' % (self.bind(tgt.id, s), e)
             sub = self.subscript(tgt)
             if sub is not None:
                 kind, obj, k = sub
@@ -318,6 +533,9 @@ class Fn:
                 for k in c.keywords:
                     self.pure(k.value, s)
                 return None
+        if isinstance(s, ast.Expr) and self.helper(s.value) is not None:
+            return self.inline(s.value, None)
+        if isinstance(s, ast.Expr) and isinstance(s.value, ast.Call):
             bad('call', s)
         bad('statement %s' % type(s).__name__, s)
 
@@ -349,12 +567,13 @@ def generate() -> dict:
         fn = find_method(tree, cls, name)
         if fn.decorator_list:
             bad('decorated method %s' % name, fn)
-        F = Fn(fn, tag, visitor)
+        cdef = [n for n in tree.body if isinstance(n, ast.ClassDef) and n.name == cls][0]
+        F = Fn(fn, tag, visitor, tree, cdef)
         if len(F.params) != nparams:
             bad('number of parameters of %s.%s' % (cls, name), fn)
         text = F.block(strip_doc(fn.body))
         lines.append('(* %s.%s(%s): parameters first (in the order of the signature), then locals *)' % (cls, name, ', '.join(F.params)))
-        lines.append('(* variables: %s *)' % ', '.join('%d = %s' % (i, py) for py, i in F.vars.items()))
+        lines.append('(* variables: %s; %d in all with those of inlined helpers *)' % (', '.join('%d = %s' % (i, py) for py, i in F.vars.items()), F.alloc[0]))
         lines.append('Definition code_%s : stmt :=' % tag)
         lines.append(textwrap.fill(text, 110, initial_indent='  ', subsequent_indent='  ', break_long_words=False) + '.')
         lines.append('')
